@@ -234,7 +234,7 @@ impl Inv {
             ("from_bytes_with_nul_unchecked", "cstr_from_bytes_unchecked"),
             (":: core :: ffi :: c_", "core_ffi_ctypes"),
             (":: std :: os :: raw :: c_", "std_os_raw_ctypes"),
-            ("from_raw_parts", "ptr_from_raw_parts"),
+            ("ptr :: from_raw_parts", "ptr_from_raw_parts"),
             ("to_raw_parts", "ptr_to_raw_parts"),
             ("for_value_raw", "layout_for_value_raw"),
             ("# ! [feature", "feature_attrs"),
@@ -358,6 +358,23 @@ impl Inv {
     }
 }
 
+fn count_cstr_literals(ts: proc_macro2::TokenStream) -> u64 {
+    let mut n = 0;
+    for tt in ts {
+        match tt {
+            proc_macro2::TokenTree::Group(g) => n += count_cstr_literals(g.stream()),
+            proc_macro2::TokenTree::Literal(l) => {
+                let s = l.to_string();
+                if s.starts_with("c\"") || s.starts_with("cr\"") || s.starts_with("cr#") {
+                    n += 1;
+                }
+            }
+            _ => {}
+        }
+    }
+    n
+}
+
 fn link_name(attrs: &[Attribute]) -> Option<String> {
     for a in attrs {
         if a.path().is_ident("link_name") {
@@ -386,7 +403,7 @@ fn main() {
                 inv.items("root", &file.items);
                 let toks = file.to_token_stream().to_string();
                 inv.census_tokens(&toks);
-                let ncstr = text.matches("c\"").count() as u64;
+                let ncstr = count_cstr_literals(file.to_token_stream());
                 if ncstr > 0 {
                     inv.bump("cstr_literals_textual", ncstr);
                 }
